@@ -4,7 +4,16 @@
 -/
 import PatchModel.Proto
 import PatchModel.Spec.Place
+import PatchModel.Model.Parse
 open PatchModel PatchModel.Proto
+
+def showPatch (p : Patch) : String :=
+  s!"{showFormat p.format} {showOperation p.operation} {hex p.indexPath} {hex p.prerequisite} {hex p.oldPath} {hex p.newPath} {hex p.oldTime} {hex p.newTime} {p.oldMode} {p.newMode} {p.hunks.length}"
+    ++ String.join (p.hunks.map fun h => " " ++ showHunk h)
+
+/-- number of lines `get_line` still yields -/
+def remaining (s : PStream) : Nat :=
+  if s.eof || s.bad then 0 else s.rest.length
 
 def respond (req : List String) : Except String String :=
   match req with
@@ -64,7 +73,10 @@ def respond (req : List String) : Except String String :=
       let claimed ← (do
         match (← tok) with
         | "none" => pure (none : Option (Nat × Nat))
-        | _ => do let p ← pNat; let f ← pNat; pure (some (p, f)))
+        | t => do
+          match t.toNat? with
+          | none => throw s!"expected position, got {t}"
+          | some p => let f ← pNat; pure (some (p, f)))
       let guess := expectedLine h - 1 + off
       if (oldOf h.lines).isEmpty || h.old.count == 0 then
         if h.old.start == 0 && !file.isEmpty then
@@ -81,6 +93,53 @@ def respond (req : List String) : Except String String :=
           else if S.any (fun (_, f') => f' < f) then pure "bad:fuzz-not-least"
           else if 0 ≤ guess && S.contains (guess.toNat, 0) && (p, f) != (guess.toNat, 0) then pure "bad:not-at-stated-place"
           else pure "ok" : P String).run' rest
+  | "strip" :: rest => (do
+      let path ← pBytes; let n ← pInt
+      pure ("ok " ++ hex (stripPath path n)) : P String).run' rest
+  | "basename" :: rest => (do
+      let path ← pBytes
+      pure ("ok " ++ hex (basename path)) : P String).run' rest
+  | "quoted" :: rest => (do
+      let s ← pBytes
+      pure (match parseQuotedString s with
+        | .ok (b, _) => "ok " ++ hex b
+        | .error e => "exn " ++ showExn e) : P String).run' rest
+  | "fileline" :: rest => (do
+      let s ← pBytes; let n ← pInt
+      pure (match parseFileLine s n with
+        | .ok (pa, ts) => "ok " ++ hex pa ++ " " ++ (match ts with | some t => hex t | none => "unset")
+        | .error e => "exn " ++ showExn e) : P String).run' rest
+  | "gitname" :: rest => (do
+      let s ← pBytes; let n ← pInt
+      pure (match parseGitHeaderName s n with
+        | .ok b => "ok " ++ hex b
+        | .error e => "exn " ++ showExn e) : P String).run' rest
+  | "gitext" :: rest => (do
+      let s ← pBytes; let n ← pInt
+      pure (match parseGitExtendedInfo s {} n with
+        | .ok (b, p) => s!"ok {if b then 1 else 0} {showOperation p.operation} {hex p.oldPath} {hex p.newPath} {p.oldMode} {p.newMode}"
+        | .error e => "exn " ++ showExn e) : P String).run' rest
+  | "urange" :: rest => (do
+      let s ← pBytes
+      let (ok, h) := parseUnifiedRange defaultHunk s
+      pure s!"{if ok then 1 else 0} {h.old.start} {h.old.count} {h.new.start} {h.new.count}" : P String).run' rest
+  | "nrange" :: rest => (do
+      let s ← pBytes
+      let (ok, h) := parseNormalRange defaultHunk s
+      pure s!"{if ok then 1 else 0} {h.old.start} {h.old.count} {h.new.start} {h.new.count}" : P String).run' rest
+  | "parse" :: rest => (do
+      let bytes ← pBytes; let f ← pFormat; let n ← pInt
+      pure (match parsePatch bytes f n with
+        | .error e => "exn " ++ showExn e
+        | .ok (p, par) => "ok " ++ showPatch p ++ s!" rem={remaining par.s}") : P String).run' rest
+  | "parseall" :: rest => (do
+      let bytes ← pBytes; let f ← pFormat; let n ← pInt
+      let par : Parser := { s := { rest := splitLines bytes } }
+      pure (match parseAll f n 64 par [] with
+        | .error e => "exn " ++ showExn e
+        | .ok (ps, par', looped) =>
+          if looped then "loop"
+          else s!"ok {ps.length}" ++ String.join (ps.map fun p => " | " ++ showPatch p) ++ s!" rem={remaining par'.s}") : P String).run' rest
   | cmd :: _ => .error s!"unknown request {cmd}"
   | [] => .error "empty request"
 
